@@ -424,7 +424,26 @@ func (w *World) treeSize() int64 { return int64(w.be.Log.RootSize) }
 func (w *World) genSubmit() *Op {
 	t := w.s.T
 	var sub *Submission
-	if len(w.subs) > 0 && t.Chance(2, 5) {
+	if w.mode.External && t.Chance(1, 2) {
+		// a client whose submission was refused because the chain store failed tries again (once): whatever the failed
+		// attempt left behind, the retry is an ordinary submission
+		for i := len(w.ops) - 1; i >= 0 && sub == nil; i-- {
+			o := w.ops[i]
+			if o.Sub == nil || !o.Checked || o.Status == 200 || o.Retried {
+				continue
+			}
+			for _, k := range o.StoreOps {
+				if strings.HasPrefix(k, "store.") {
+					o.Retried, sub = true, o.Sub
+					w.s.Probe("resubmit.after-store-fault")
+					break
+				}
+			}
+		}
+	}
+	if sub != nil {
+		// (chosen above)
+	} else if len(w.subs) > 0 && t.Chance(2, 5) {
 		prev := w.subs[t.Intn(len(w.subs))]
 		if t.Chance(1, 3) {
 			sub = prev.Variant()
